@@ -249,6 +249,7 @@ func runC11(c *Ctx) {
 	c.Rule("A2a-reset: for every sync.Pool of the module, for every field location (field, sub-field, slice/array contents) of the pooled struct: it is not read before being fully written between Get and the end of the object's life (followed through returns into callers), counting constant resets done before Put; an upward-exposed read is a violation unless the location has a reviewed line in tables/poolstate.txt")
 	c.Rule("A2a-benign: reads of a kept slice header used only for cap()/nil tests and reslice-store-back (the capacity-reuse idiom) are not exposed reads")
 	c.Rule("A2b-reuse: for every cap()-guarded buffer reuse X[:n] vs make(n): on the reuse path no element is read before the buffer is cleared or fully overwritten (clear, full-range store loop), within the function and the callees it is passed to; buffers that leave the function unwritten must be fields of a pooled type tracked by A2a or reviewed")
+	c.Rule("A2b-extend: no reslice provably extends a slice beyond its length (x[:len(x)+k], x[:cap(x)]) unless its backing array was allocated in the same function or the site is reviewed")
 	c.Rule("A2c-put: after Put(x) (including deferred Put, which runs after results are evaluated) no value derived from x is used, stored or returned")
 	c.NotCovered("locations with a reviewed table line (scratch written before read by construction, invariants implied by the reuse test) are reviewed by hand, not proven")
 	c.NotCovered("that equal internal state implies equal output bytes (determinism of the kernels themselves)")
@@ -410,6 +411,10 @@ func structLocs(st *types.Struct) []string {
 		case *types.Struct:
 			for j := 0; j < u.NumFields(); j++ {
 				out = append(out, f.Name()+"."+u.Field(j).Name())
+				switch u.Field(j).Type().Underlying().(type) {
+				case *types.Slice, *types.Array:
+					out = append(out, f.Name()+"."+u.Field(j).Name()+"[]")
+				}
 			}
 		}
 	}
